@@ -28,6 +28,9 @@ THEOREMS = [
     "Nix.C07.set_index",
     "Nix.C07.set_index_iff",
     "Nix.C07.guard_on_raw_position_counterexample",
+    "Nix.C07.separated_of_neighbours",
+    "Nix.C07.separated_sampled_of_neighbours",
+    "Nix.C07.separated_set_of_neighbours",
     "Nix.C07.band_width",
     "Nix.C07.band_limit_generated",
     "Nix.C07.sampled_index_full_counterexample",
